@@ -136,10 +136,11 @@ class _partial_normalize:
 # ---------------------------------------------------------------------------------------------- adaptive addition (C05)
 
 def _aadd_cfgs():
-    return [{"c1": a, "c2": b_} for a in (0, 1, 2) for b_ in (0, 1, 2)]
+    return [{"c1": a, "c2": b_} for a in (0, 1, 2) for b_ in (0, 1, 2)] + \
+           [{"c1": 1, "c2": 1, "d1": "int64", "d2": "float64"}, {"c1": 1, "c2": 2, "d1": "float64", "d2": "int64"}]      # operands of different dtypes
 
 
-@contract(HB + ".__iadd__", props=["C05", "C12", "C18"], name=HB + ".__iadd__[adaptive, grid-compatible]")
+@contract(HB + ".__iadd__", props=["C05", "C12", "C13", "C18"], name=HB + ".__iadd__[adaptive, grid-compatible]")
 class _iadd_adaptive:
     bounded = True
     bound_note = "adaptive addition: operands with <= 2 bins each on a common grid, union of at most 6 bins"
@@ -151,11 +152,16 @@ class _iadd_adaptive:
         b1 = fixed_width(b, "B", count=c.c1, adaptive=True)
         b2 = b.obj(FWB, _consecutive=None, _bins=None, _numpy_bins=None, _includes_right_edge=False, _adaptive=True,
                    _bin_width=b1._bin_width, _align=True, _bin_count=c.c2, _times_min=(b.int("O.t") if c.c2 else None), _shift=b1._shift)
-        h = hist1d(b, "h", b1, c.c1)
-        o = hist1d(b, "o", b2, c.c2)
+        h = hist1d(b, "h", b1, c.c1, dtype=getattr(c, "d1", "int64"))
+        o = hist1d(b, "o", b2, c.c2, dtype=getattr(c, "d2", "int64"))
         for x in M(o):
             b.assume(x == 0)
         return dict(self=h, other=o)
+
+    @ensures("the_sum_has_the_promoted_dtype_and_is_well_formed")
+    def _(a, old, result):
+        return And(attr(a.self, "_dtype") == promoted(old.self, old.other), dtype_consistent(a.self), well_formed(a.self),
+                   attr(a.other, "_dtype") == attr(old.other, "_dtype"))
 
     @ensures("bins_extended_to_the_union_nothing_lost")
     def _(a, old, result):
